@@ -1,11 +1,11 @@
 #!/bin/sh
-# tools/confirm_seeded.sh <src-dir-with-patchN.diff/demoN.py/metaN.json> <PID>
+# tools/confirm_seeded.sh <src-dir-with-patchN.diff/demoN.py/metaN.json> <PID> [<offset added to N>]
 # Confirms each delivered change in a scratch worktree of /repo (HEAD): applies, runs the unedited suite,
 # runs the demo with and without the change; keeps confirmed ones under /verif/seeded/<PID>-<n>/.
-SRC="$1"; PID="$2"
+SRC="$1"; PID="$2"; OFF="${3:-0}"
 for P in "$SRC"/patch*.diff; do
   [ -f "$P" ] || continue
-  N=$(basename "$P" .diff | sed 's/patch//')
+  N=$(basename "$P" .diff | sed 's/patch//'); M=$((N+OFF))
   D=$(mktemp -d /tmp/ujvc-seed.XXXXXX)
   git -C /repo worktree add -q --detach "$D/wt" HEAD || { echo "worktree failed"; continue; }
   cp "$SRC/demo$N.py" "$D/wt/demo.py"
@@ -17,7 +17,7 @@ for P in "$SRC"/patch*.diff; do
     (cd "$D/wt" && PYTHONPATH="$D/wt/src" timeout 300 /venv/bin/python demo.py >/dev/null 2>&1); RC0=$?
     res="tests=[$T] demo_with=$RC1 demo_without=$RC0"
     case "$T" in *"81 passed"*) if [ $RC1 -ne 0 ] && [ $RC0 -eq 0 ]; then
-        O=/verif/seeded/$PID-$N; mkdir -p "$O"; cp "$P" "$O/patch.diff"; cp "$SRC/demo$N.py" "$O/demo.py"
+        O=/verif/seeded/$PID-$M; mkdir -p "$O"; cp "$P" "$O/patch.diff"; cp "$SRC/demo$N.py" "$O/demo.py"
         /venv/bin/python - "$SRC/meta$N.json" "$O/meta.json" "$T" "$RC1" "$RC0" <<'PY'
 import json,sys
 try: m=json.load(open(sys.argv[1]))
@@ -28,6 +28,6 @@ json.dump(m,open(sys.argv[2],"w"),indent=1)
 PY
         res="$res KEPT"; fi;; esac
   fi
-  echo "$PID-$N: $res"
+  echo "$PID-$M: $res"
   git -C /repo worktree remove --force "$D/wt"; rm -rf "$D"
 done
